@@ -78,7 +78,7 @@ class Module:
         self.bundles: Dict[str, BundleInstance] = dict()
         self.namespace: Dict[str, ModuleAttr] = dict()  # Combination of all these
 
-        self.literals: List[Literal] = list()
+        self.literals: List[Literal] = _Literals(self)
         self.props: Properties = Properties()
 
         # Elaborated version of this module.
@@ -330,6 +330,35 @@ _banned = [
     "name",
     "bundle_ports",
 ]
+
+
+class _Literals(list):
+    """The list of a Module's literals. Like the Module itself, it takes no edits once the Module has been elaborated."""
+
+    def __init__(self, module: Module):
+        super().__init__()
+        self._module = module
+
+    def _check_editable(self) -> None:
+        module = self._module
+        if module._elaborated is not None or (
+            module._elaboration_started and not module._elaboration_open
+        ):
+            raise RuntimeError(f"Cannot edit the literals of {module} after elaboration.")
+
+    def _guarded(name: str):
+        def method(self, *args, **kwargs):
+            self._check_editable()
+            return getattr(list, name)(self, *args, **kwargs)
+
+        method.__name__ = name
+        return method
+
+    for _name in ("append", "extend", "insert", "pop", "remove", "clear", "sort", "reverse"):
+        locals()[_name] = _guarded(_name)
+    for _name in ("__iadd__", "__imul__", "__setitem__", "__delitem__"):
+        locals()[_name] = _guarded(_name)
+    del _name, _guarded
 
 
 def _assert_addable(module: Module, val: ModuleAttr, name: Any) -> None:
